@@ -605,7 +605,7 @@ class Run:
                 self.fail("other-file-changed", f"op={opdesc}", {"file": f})
         for name in sorted(os.listdir(self.rundir)):
             if not name.endswith(".db"):
-                self.fail("stray-file", f"op={opdesc} suffix={name.split('.')[-1][-12:]}", {"name": name})
+                self.count("probe:stray-files-next-to-database")   # e.g. a WAL file: not a violation of the property
 
     # ------------------------------------------------------------------ retrieval equality
     def check_retrieval(self, op, reply, fm, opdesc, where):
